@@ -369,23 +369,23 @@ Bb7 = Note('a', 10, 2, 1)
 B7 = Note('a', 11, 2, 1)
 
 
-C8 = Note('a', 0, 2, 1)
-Cs8 = Note('a', 1, 2, 1)
-Db8 = Note('a', 1, 2, 1)
-D8 = Note('a', 2, 2, 1)
-Ds8 = Note('a', 3, 2, 1)
-Eb8 = Note('a', 3, 2, 1)
-E8 = Note('a', 4, 2, 1)
-F8 = Note('a', 5, 2, 1)
-Fs8 = Note('a', 6, 2, 1)
-Gb8 = Note('a', 6, 2, 1)
-G8 = Note('a', 7, 2, 1)
-Gs8 = Note('a', 8, 2, 1)
-Ab8 = Note('a', 8, 2, 1)
-A8 = Note('a', 9, 2, 1)
-As8 = Note('a', 10, 2, 1)
-Bb8 = Note('a', 10, 2, 1)
-B8 = Note('a', 11, 2, 1)
+C8 = Note('a', 0, 3, 1)
+Cs8 = Note('a', 1, 3, 1)
+Db8 = Note('a', 1, 3, 1)
+D8 = Note('a', 2, 3, 1)
+Ds8 = Note('a', 3, 3, 1)
+Eb8 = Note('a', 3, 3, 1)
+E8 = Note('a', 4, 3, 1)
+F8 = Note('a', 5, 3, 1)
+Fs8 = Note('a', 6, 3, 1)
+Gb8 = Note('a', 6, 3, 1)
+G8 = Note('a', 7, 3, 1)
+Gs8 = Note('a', 8, 3, 1)
+Ab8 = Note('a', 8, 3, 1)
+A8 = Note('a', 9, 3, 1)
+As8 = Note('a', 10, 3, 1)
+Bb8 = Note('a', 10, 3, 1)
+B8 = Note('a', 11, 3, 1)
 
 
 
